@@ -167,7 +167,7 @@ theorem reply_is_lineReply (T : Tables) (L : Lib J) (d : Disp σ J) :
     · exact reply_is_lineReply T L d ls _ o h
 
 /-- the reply to one line belongs to it -/
-theorem lineReply_fits (T : Tables) (L : Lib J) (d : Disp σ J) (facts : TableFacts T) (hd : DispFits T L d)
+theorem lineReply_fits (T : Tables) (L : Lib J) (d : Disp σ J) (facts : TableFacts T) (hd : DispAnswers T d)
     (st : σ) (line : Bytes) :
     let m := lineReply T L d st line
     FitsOk T (reqOf T line) m.action (m.spec.getD [])
@@ -218,7 +218,7 @@ theorem lineReply_fits (T : Tables) (L : Lib J) (d : Disp σ J) (facts : TableFa
         rw [hm, hreq]
         refine ⟨by rw [← ht.1, hhelp]; exact facts.help_reply, Or.inr (Or.inl ⟨Or.inr (by rw [← ht.1, hhelp]), rfl⟩)⟩
       · simp only [hhelp, ↓reduceIte] at hm
-        obtain ⟨_, hres⟩ := hd st t
+        have hres := hd st t
         have hecho : ∀ cls, cls ∈ T.errorClasses →
             FitsErr T (reqOf T line) (T.errorPrefix ++ t.action) (t.spec.getD []) cls := by
           intro cls hc
@@ -230,7 +230,7 @@ theorem lineReply_fits (T : Tables) (L : Lib J) (d : Disp σ J) (facts : TableFa
           left
           rw [hm, hreq]
           simp only [resultReply]
-          have := hres.2
+          have := hres
           rw [ht.1, ht.2] at this
           exact this
         | secop cls =>
@@ -247,10 +247,11 @@ theorem lineReply_fits (T : Tables) (L : Lib J) (d : Disp σ J) (facts : TableFa
           exact ⟨T.handlerErrorClass, by rw [hm]; rfl, by rw [hm]; exact hecho _ facts.handler_class⟩
 
 /-- **reply_action_fits** — for every byte stream and segmentation, with a dispatcher that does its
-part (`DispFits`): every reply carries the reply action `REQUEST2REPLY` gives for its request line
+part (`DispAnswers`: positive replies belong to the request, raised SECoP classes are classes of errors.py; implied by
+`DispFits` — `dispFits_answers` — and proved for the dispatcher model — `dispatcher_reply_action_fits`): every reply carries the reply action `REQUEST2REPLY` gives for its request line
 (or the identification reply) with the request's specifier, or it is `error_` + the request's action
 with the request's specifier echoed and … -/
-theorem reply_action_fits (T : Tables) (L : Lib J) (d : Disp σ J) (facts : TableFacts T) (hd : DispFits T L d)
+theorem reply_action_fits (T : Tables) (L : Lib J) (d : Disp σ J) (facts : TableFacts T) (hd : DispAnswers T d)
     (st : σ) (chunks : List Bytes) :
     ∀ o ∈ replies (serve T L d [] st chunks).outs,
       FitsOk T (reqOf T o.req) o.msg.action (o.msg.spec.getD [])
@@ -264,7 +265,7 @@ theorem reply_action_fits (T : Tables) (L : Lib J) (d : Disp σ J) (facts : Tabl
 
 /-- **error_class_is_secop** — … every error reply names an error class of errors.py: the class of
 the SECoP error the dispatcher raised, or the handler's own `InternalError` -/
-theorem error_class_is_secop (T : Tables) (L : Lib J) (d : Disp σ J) (facts : TableFacts T) (hd : DispFits T L d)
+theorem error_class_is_secop (T : Tables) (L : Lib J) (d : Disp σ J) (facts : TableFacts T) (hd : DispAnswers T d)
     (st : σ) (chunks : List Bytes) :
     ∀ o ∈ replies (serve T L d [] st chunks).outs,
       ¬ FitsOk T (reqOf T o.req) o.msg.action (o.msg.spec.getD []) →
@@ -273,6 +274,19 @@ theorem error_class_is_secop (T : Tables) (L : Lib J) (d : Disp σ J) (facts : T
   rcases reply_action_fits T L d facts hd st chunks o ho with h | ⟨c, hc, hf⟩
   · exact absurd h hnot
   · exact ⟨c, hf.2.2, hc⟩
+
+/-- **dispatcher_reply_action_fits** — `reply_action_fits` with no hypothesis on the dispatcher left: the handler with the
+dispatcher model behind it, over any node whose SECoP errors carry class names of errors.py (`NodeClasses`), on any byte
+stream in any segmentation — every reply is the reply action of its request line with the request's specifier, or
+`error_` + action with the specifier echoed and a SECoP error class.  Requests with specifiers of any characters included. -/
+theorem dispatcher_reply_action_fits {ν κ : Type} (L : Lib J) (N : NodeIf ν κ J) (hN : NodeClasses tables.errorClasses N)
+    (st : ν × κ) (chunks : List Bytes) :
+    ∀ o ∈ replies (serve tables L (dispatch tables dtables N) [] st chunks).outs,
+      FitsOk tables (reqOf tables o.req) o.msg.action (o.msg.spec.getD [])
+      ∨ ∃ c, o.msg.data = some (L.errReport c) ∧ FitsErr tables (reqOf tables o.req) o.msg.action (o.msg.spec.getD []) c :=
+  reply_action_fits tables L _ generated_table_facts
+    (dispatch_answers tables dtables N hN (by decide)) st chunks
+
 
 end loop
 
@@ -1140,5 +1154,28 @@ preceded by the update), cut at the newlines exactly these -/
 example : (wire L0 (serve tables L0 (dispatch tables dtables N1) [] (0, ()) [[112, 105, 110, 103, 32, 127, 10, 114, 101], [97, 100, 32, 109, 10]]).outs)
     = [[117, 112, 100, 97, 116, 101, 32, 109, 32, 116, 10], [112, 111, 110, 103, 32, 127, 32, 102, 10],
        [117, 112, 100, 97, 116, 101, 32, 109, 32, 116, 10], [114, 101, 112, 108, 121, 32, 109, 32, 116, 10]] := by decide
+
+/-- `DispAnswers` / `NodeClasses` are satisfiable: the refusing dispatcher, and the node `N1` (its only error class is `NoSuchModule`) -/
+example : DispAnswers tables d0 := dispFits_answers d0_fits
+
+example : NodeClasses tables.errorClasses N1 where
+  describe := by
+    intro s c h
+    simp only [N1, N0] at h
+    split at h
+    · cases h
+    · split at h
+      · cases h
+      · cases h; decide
+  activate := by
+    intro s c h
+    simp only [N1, N0] at h
+    split at h
+    · cases h
+    · cases h; decide
+  logging := by intro s d c h; simp [N1, N0] at h
+  read := by intro nu m p c h; simp [N1, N0] at h
+  change := by intro nu m p v c h; simp [N1, N0] at h
+  exec := by intro nu m p v c h; simp [N1, N0] at h
 
 end Frappy.Props.C07
